@@ -2,12 +2,20 @@
 import importlib.util, os
 _s = importlib.util.spec_from_file_location("tc", os.path.join(VERIF, "props", "_tiff_common.py")); tc = importlib.util.module_from_spec(_s); _s.loader.exec_module(tc)
 
-def f(n, grouping, desc=12, timeout=1500, file_uri=0):
+def f(n, grouping, desc=12, timeout=1500, file_uri=0, meta=0):
     fsz = 16 + n * (8 + 320 + 8 + 8 + 8 + ((desc + 8) // 8) * 8 + 16) + 64
     h = tc.tiff_h(H, VERIF, "tiff_file_N%d_g%d_d%d_u%d" % (n, grouping, desc, file_uri), ["MODE=15", "NFRAMES=%d" % n, "GROUPING=%d" % grouping, "DESC=%d" % desc, "FILE_URI=%d" % file_uri],
                   unwind=max(18, n + 2), timeout=timeout, unwindset={"file_write.0": fsz + 1})
     h.what = "tiff.cpp (clang IR -> C, validated) through the HAL: set, start, %d frame(s) with symbolic width/height/type/ids/timestamps/pixels in %s, stop; independent reader over the file image" % (n, "one packet" if grouping == 2 else "one packet per frame")
     h.bounds = dict(frames=n, image_bytes=8, description_length=desc, uri="a | file://a")
+    h.unwindset["vsnprintf.0"] = 142; h.unwindset["vsnprintf.1"] = 142; h.unwindset["vsnprintf.2"] = 142
+    h.unwindset["key_before.0"] = 22
+    if os.environ.get("VERIF_C15_FS"):
+        h.flags = list(h.flags) + ["--max-field-sensitivity-array-size", os.environ["VERIF_C15_FS"]]
+    if meta:
+        h.name += "_meta"; h.defines.append("TIFF_META=1")
+        h.what += "; user metadata {\"a\":\"5%\"} set: carried verbatim by the first description only, every value attached to its JSON key, no other conversion in a description format"
+        h.bounds["metadata"] = "one fixed JSON text with a per-cent sign"
     return h
 
 def fstep(timeout=1500):
@@ -33,13 +41,13 @@ def harnesses(tier, findings):
         a = f(1, 1); a.solver = "kissat"; a.name += "_kissat"; a.timeout = 900
         return [a, f(1, 1, timeout=900)]
     if tier == "quick":
-        return [f(1, 1), f(1, 1, file_uri=1), fstep()]
-    return [f(1, 1), f(1, 1, file_uri=1), f(2, 1, timeout=3000), f(2, 2, timeout=3000), f(1, 1, desc=30, timeout=3000), fstep(3000)]
+        return [f(1, 1), f(1, 1, file_uri=1, meta=1), fstep()]
+    return [f(1, 1), f(1, 1, file_uri=1, meta=1), f(2, 1, timeout=3000, meta=1), f(2, 2, timeout=3000), f(1, 1, desc=30, timeout=3000), fstep(3000)]
 
 META = dict(
     level="model_checking",
     bounds=dict(quick="N=1 frame, 8 image bytes, all widths/heights/types/ids/timestamps/pixels, plain and file:// URI", thorough="N=2 in both groupings, description length 30"),
-    outside="the tiff-json composite (side-by-side-tiff.cpp: std::filesystem in set/start cannot be translated); Tiff::set's std::string handling beyond the two URIs; metadata strings; N>2; image bytes other than 8; repeated start/stop cycles (covered for descriptors by C16)",
+    outside="the tiff-json composite (side-by-side-tiff.cpp: std::filesystem in set/start cannot be translated); Tiff::set's std::string handling beyond the two URIs; metadata other than the one fixed text; the TEXT vsnprintf renders (the model checks the format's key/conversion structure and the arguments, not libc's output); N>2; image bytes other than 8; repeated start/stop cycles (covered for descriptors by C16)",
     assumptions=["clang++-14 -O1 IR of tiff.cpp translated to C by ir2c/ir2c.py; every run checks the generated C against the g++ build on 6 scenarios (byte-identical files)",
-                 "file layer modelled at the platform API; vsnprintf returns a fixed length and records its arguments", "allocation stubs return fixed-capacity objects", "HAL storage.c is the real code"],
+                 "file layer modelled at the platform API; vsnprintf returns a fixed length, walks the format and records each argument with the JSON key that precedes its conversion", "allocation stubs return fixed-capacity objects", "HAL storage.c is the real code"],
 )
